@@ -9,7 +9,8 @@ RULE = ("S-syn listings (3-48 instructions, near-miss vocabularies) x rules that
         "start / hit windows. Non-trivial = R-dsl finds the rule, or the case is one mutation away from a found case; "
         "distinct = distinct (rule text, instruction list). Plus an exhaustive relation grid, identical at every seed: mnemonic / operand-1 / operand-2 "
         "names in every relation (equal, prefix, suffix, infix, extension, unrelated, empty, omitted) to the instructions of a fixed near-miss listing x 4 "
-        "flag settings, expected addresses computed by the plain definition.")
+        "flag settings, expected addresses computed by the plain definition. "
+        "Riders: a decoy rule with the opposite flags loaded between building and running a matcher; fixed objdump lines whose operands hold commas behind a segment override or `*`.")
 FLOOR = {"quick": 400, "thorough": 5000}
 ANCHOR_HINTS = ["mnemonic_and_operand", "node_branch_root", "global_definitions", "consumer", "yaml2regex"]
 REQUIRED_EVENTS = ["hits_located", "relation_grid_cells", "token_rules_on_decorated_operands"]
